@@ -279,7 +279,7 @@ theorem header_text_spec (mapping : List (String × CsvMapping)) (sorted : Bool)
 theorem build_ok_spec (mode : WriteMode) (f : Format) (rate : Option Int) (existing : Option (List Char))
     (s : FileSink) (h : build mode f rate existing = .ok s) :
     (∃ c, openFile mode f existing = some c ∧ s.file = [c]) ∧ s.format = f ∧ s.iterations = 0 ∧
-    s.poisoned = false ∧ 0 < s.flushEvery := by
+    s.Healthy ∧ 0 < s.flushEvery := by
   unfold build at h
   split at h
   · simp at h
@@ -289,7 +289,7 @@ theorem build_ok_spec (mode : WriteMode) (f : Format) (rate : Option Int) (exist
     · rename_i n hn
       simp only [BuildResult.ok.injEq] at h
       subst h
-      refine ⟨⟨c, hc, rfl⟩, rfl, rfl, rfl, ?_⟩
+      refine ⟨⟨c, hc, rfl⟩, rfl, rfl, ⟨rfl, rfl⟩, ?_⟩
       unfold flushEvery at hn
       split at hn
       · simp only [Option.some.injEq] at hn
@@ -313,14 +313,14 @@ responses together with the still-queued ones are a permutation of the batch (no
 the counter counts them; nothing failed.  `persist` is the persistence policy: it changes `returned`
 only, never the file. -/
 theorem file_holds_one_record_per_written_response (N : NumOps) (persist : Bool) (sink : FileSink)
-    (queues : List (List Json)) (schedule : List Nat) (hp : sink.poisoned = false)
+    (queues : List (List Json)) (schedule : List Nat) (hp : sink.Healthy)
     (hw : ∀ r ∈ queues.flatten, Writable N sink.format r) :
     ∃ trace : List Json,
       let final := (Run.init sink queues).exec N persist schedule
       final.sink.file = sink.file ++ trace.map (recordOf N sink.format) ∧
       (trace ++ final.queues.flatten).Perm queues.flatten ∧
       final.sink.iterations = sink.iterations + trace.length ∧
-      final.failed = 0 ∧ final.sink.poisoned = false := by
+      final.failed = 0 ∧ final.sink.Healthy := by
   obtain ⟨t, h⟩ := exec_progress N persist schedule (Run.init sink queues) hp hw (by simp [Run.init])
   exact ⟨t, h.file, h.queues, h.iterations, h.failed, h.poisoned⟩
 
@@ -328,7 +328,7 @@ theorem file_holds_one_record_per_written_response (N : NumOps) (persist : Bool)
 exactly `{record r | r ∈ batch}`: one intact record per response — none lost, duplicated, split or
 interleaved — for every parallelism (number of queues) and every schedule -/
 theorem complete_batch_file_is_multiset_of_records (N : NumOps) (persist : Bool) (sink : FileSink)
-    (queues : List (List Json)) (schedule : List Nat) (hp : sink.poisoned = false)
+    (queues : List (List Json)) (schedule : List Nat) (hp : sink.Healthy)
     (hw : ∀ r ∈ queues.flatten, Writable N sink.format r)
     (hdone : ((Run.init sink queues).exec N persist schedule).done = true) :
     ∃ appended : List (List Char),
@@ -344,7 +344,7 @@ theorem complete_batch_file_is_multiset_of_records (N : NumOps) (persist : Bool)
 
 /-- the text of the file: opening contents, then the records one after the other — nothing in between -/
 theorem file_text_is_concatenation (N : NumOps) (persist : Bool) (sink : FileSink)
-    (queues : List (List Json)) (schedule : List Nat) (hp : sink.poisoned = false)
+    (queues : List (List Json)) (schedule : List Nat) (hp : sink.Healthy)
     (hw : ∀ r ∈ queues.flatten, Writable N sink.format r) :
     ∃ trace : List Json,
       ((Run.init sink queues).exec N persist schedule).sink.contents
@@ -354,7 +354,7 @@ theorem file_text_is_concatenation (N : NumOps) (persist : Bool) (sink : FileSin
 
 /-- line count: with one-line records the completed batch adds exactly one newline per response -/
 theorem complete_batch_line_count (N : NumOps) (persist : Bool) (sink : FileSink)
-    (queues : List (List Json)) (schedule : List Nat) (hp : sink.poisoned = false)
+    (queues : List (List Json)) (schedule : List Nat) (hp : sink.Healthy)
     (hw : ∀ r ∈ queues.flatten, Writable N sink.format r)
     (hline : ∀ r ∈ queues.flatten, '\n' ∉ rowOf N sink.format r)
     (hdone : ((Run.init sink queues).exec N persist schedule).done = true) :
@@ -425,7 +425,7 @@ theorem file_same_under_both_persistence_policies (N : NumOps) (s : Run) (schedu
 multiset, the `format_response`-amended versions of the responses written (hence, by section 3, they keep
 everything they held); under `DiscardResponseFromMemory` nothing is kept -/
 theorem returned_responses (N : NumOps) (persist : Bool) (sink : FileSink)
-    (queues : List (List Json)) (schedule : List Nat) (hp : sink.poisoned = false)
+    (queues : List (List Json)) (schedule : List Nat) (hp : sink.Healthy)
     (hw : ∀ r ∈ queues.flatten, Writable N sink.format r)
     (hdone : ((Run.init sink queues).exec N persist schedule).done = true) :
     ((Run.init sink queues).exec N persist schedule).returned.flatten.Perm
@@ -449,7 +449,7 @@ theorem returned_responses (N : NumOps) (persist : Bool) (sink : FileSink)
 /-- and exactly, not only as a multiset: under `PersistResponseInMemory` worker `w` hands back, in the order
 of its queue, the amended version of each of its responses — the same vectors for every schedule -/
 theorem returned_in_query_order (N : NumOps) (sink : FileSink) (queues : List (List Json))
-    (schedule : List Nat) (hp : sink.poisoned = false)
+    (schedule : List Nat) (hp : sink.Healthy)
     (hw : ∀ r ∈ queues.flatten, Writable N sink.format r)
     (hdone : ((Run.init sink queues).exec N true schedule).done = true) :
     ((Run.init sink queues).exec N true schedule).returned
@@ -486,7 +486,7 @@ example :
 file gets exactly one record and one count, and the response stays an object (so the next one can be
 written too).  Member `i` writes the response as members `< i` left it. -/
 theorem combined_sink_appends_one_record_to_every_member (N : NumOps) (ss : List FileSink) (r : Json)
-    (hp : ∀ s ∈ ss, s.poisoned = false) (hr : r.isObject = true) :
+    (hp : ∀ s ∈ ss, s.Healthy) (hr : r.isObject = true) :
     ∃ ss' r', writeCombined N ss r = .ok ss' r' ∧ r'.isObject = true ∧ AppendedOne ss ss' :=
   writeCombined_objects N ss r hp hr
 
@@ -501,7 +501,7 @@ amended error responses under both policies and, under `PersistResponseInMemory`
 responses too — then as many responses as records were written. -/
 theorem app_file_has_one_record_per_response (N : NumOps) (persist : Bool) (sink : FileSink)
     (queues : List (List Json)) (inputErrors : List Json) (schedule : List Nat)
-    (hp : sink.poisoned = false)
+    (hp : sink.Healthy)
     (hw : ∀ r ∈ inputErrors ++ queues.flatten, Writable N sink.format r)
     (hdone : Complete queues schedule) :
     ∃ (sink' : FileSink) (returned : List Json) (appended : List (List Char)),
@@ -521,8 +521,10 @@ theorem app_file_has_one_record_per_response (N : NumOps) (persist : Bool) (sink
   obtain ⟨app, hfile, hperm, hlen, hit⟩ :=
     complete_batch_file_is_multiset_of_records N persist s₁ queues schedule hpo₁ hw₁ hd
   have hret := returned_responses N persist s₁ queues schedule hpo₁ hw₁ hd
+  obtain ⟨_, _, _, _, hfailed, _⟩ :=
+    file_holds_one_record_per_written_response N persist s₁ queues schedule hpo₁ hw₁
   rw [hfmt₁] at hperm hret
-  refine ⟨((Run.init s₁ queues).exec N persist schedule).sink, _, app, by simp only [appRun, hs₁],
+  refine ⟨((Run.init s₁ queues).exec N persist schedule).sink, _, app, by simp [appRun, hs₁, hfailed],
     by rw [hfile, hfile₁], hperm, ?_, ?_,
     List.Perm.append_right _ hret, ?_⟩
   · rw [List.length_append, List.length_map, hlen]
@@ -608,7 +610,7 @@ theorem json_record_determines_response (a b : Json) (ha : numsOk a = true) (hb 
 /-- for ANY reader that gives back what was written (up to a normal form `norm`), the records of a completed
 batch read back, as a multiset, to the batch — for every schedule and both persistence policies -/
 theorem json_lines_parse_back (N : NumOps) (persist : Bool) (sink : FileSink) (queues : List (List Json))
-    (schedule : List Nat) (hp : sink.poisoned = false) (hf : sink.format = .json true)
+    (schedule : List Nat) (hp : sink.Healthy) (hf : sink.format = .json true)
     (parse : List Char → Option Json) (norm : Json → Json)
     (hparse : ∀ j ∈ queues.flatten, parse (compact j) = some (norm j))
     (hdone : ((Run.init sink queues).exec N persist schedule).done = true) :
@@ -633,7 +635,7 @@ theorem json_lines_parse_back (N : NumOps) (persist : Bool) (sink : FileSink) (q
 /-- instantiated with the proved reader: no assumption left on the model side (what remains trusted is that
 `serde_json::from_str` agrees with it, which the harness checks on every generated record) -/
 theorem json_lines_read_back (N : NumOps) (persist : Bool) (sink : FileSink) (queues : List (List Json))
-    (schedule : List Nat) (hp : sink.poisoned = false) (hf : sink.format = .json true)
+    (schedule : List Nat) (hp : sink.Healthy) (hf : sink.format = .json true)
     (hnum : ∀ r ∈ queues.flatten, numsOk r = true)
     (hdone : ((Run.init sink queues).exec N persist schedule).done = true) :
     ∃ rows : List (List Char),
@@ -664,6 +666,179 @@ theorem json_array_form_contents (N : NumOps) (a b : Json) :
   simp only [build, openFile, flushEvery, headerText, initialContents, BuildResult.ok.injEq] at h
   subst h
   simp [FileSink.write, formatResponse, FileSink.close, FileSink.contents, record, finalContents, txt]
+
+/-! ## 9. Paths of every kind, failing devices, close, Combined build (what the code does when things go wrong) -/
+
+/-- `WriteMode::open_file` at every kind of path.  A missing path is created with the header in every mode; a
+file: Append keeps it (no second header), Overwrite starts over with the header, Error refuses; a directory
+and a path without parent directory cannot be opened (Error refuses the directory: it exists); a device that
+refuses writes opens in Append mode (it exists: no header is written) and fails every later write. -/
+theorem open_path_spec (f : Format) (c : List Char) :
+    (∀ mode, openPath mode f .missing = .ok (headerText f) false) ∧
+    openPath .append f (.file c) = .ok c false ∧
+    openPath .overwrite f (.file c) = .ok (headerText f) false ∧
+    openPath .error f (.file c) = .refused ∧
+    openPath .append f .directory = .ioError ∧ openPath .overwrite f .directory = .ioError ∧
+    openPath .error f .directory = .refused ∧
+    (∀ mode, openPath mode f .noParent = .ioError) ∧
+    openPath .append f .full = .ok [] true ∧ openPath .error f .full = .refused := by
+  refine ⟨fun mode => rfl, rfl, rfl, rfl, rfl, rfl, rfl, fun mode => rfl, rfl, rfl⟩
+
+/-- on files and missing paths `openPath` is `openFile` (sections 4–6 speak about these) -/
+theorem open_path_on_files (mode : WriteMode) (f : Format) (c : List Char) :
+    openPath mode f (.file c) = (match openFile mode f (some c) with | some c' => .ok c' false | none => .refused) ∧
+    openPath mode f .missing = (match openFile mode f none with | some c' => .ok c' false | none => .refused) := by
+  cases mode <;> exact ⟨rfl, rfl⟩
+
+/-- an open that is refused or fails leaves whatever is at the path alone -/
+theorem failed_open_leaves_path_alone (mode : WriteMode) (f : Format) (st : PathState)
+    (h : openPath mode f st = .refused ∨ openPath mode f st = .ioError) : pathAfterOpen mode f st = st := by
+  unfold pathAfterOpen
+  cases st <;> cases mode <;> simp_all [openPath] <;> split <;> simp_all
+
+/-- `build` at a path: the sink is healthy exactly when the path is not a write-refusing device; it carries
+the configured name and starts on what `open_file` left -/
+theorem build_at_spec (mode : WriteMode) (name : String) (f : Format) (rate : Option Int) (st : PathState)
+    (s : FileSink) (h : buildAt mode name f rate st = .ok s) :
+    ∃ c failing, openPath mode f st = .ok c failing ∧ s.file = [c] ∧ s.failing = failing ∧ s.poisoned = false ∧
+      s.name = name ∧ s.format = f ∧ s.iterations = 0 := by
+  unfold buildAt at h
+  split at h
+  · simp at h
+  · simp at h
+  · rename_i c failing hc
+    split at h
+    · simp at h
+    · simp only [BuildAtResult.ok.injEq] at h
+      subst h
+      exact ⟨c, failing, hc, rfl, rfl, rfl, rfl, rfl, rfl⟩
+
+/-- a write to a device that refuses it: `write_response` returns an error, nothing reaches the file, the
+counter stands still — but the formatter has run, so the response handed back carries its bookkeeping -/
+theorem failing_device_write (N : NumOps) (s : FileSink) (r : Json) (hp : s.poisoned = false)
+    (hf : s.failing = true) (hw : Writable N s.format r) :
+    s.write N r = .ioError s (postOf N s.format r) := by
+  unfold FileSink.write
+  rw [hp, formatResponse_of_writable hw]
+  simp [hf]
+
+/-- hence, whatever the schedule, a batch run on such a device leaves the file as it was and every write
+counted as failed -/
+theorem failing_device_run (N : NumOps) (persist : Bool) (s : Run) (schedule : List Nat)
+    (hp : s.sink.poisoned = false) (hf : s.sink.failing = true)
+    (hw : ∀ r ∈ s.queues.flatten, Writable N s.sink.format r) :
+    (s.exec N persist schedule).sink = s.sink ∧ (s.exec N persist schedule).returned = s.returned ∧
+    (s.exec N persist schedule).failed + (s.exec N persist schedule).queues.flatten.length
+      = s.failed + s.queues.flatten.length := by
+  induction schedule generalizing s with
+  | nil => exact ⟨rfl, rfl, rfl⟩
+  | cons w ws ih =>
+    have hstep : (s.step N persist w).sink = s.sink ∧ (s.step N persist w).returned = s.returned ∧
+        (s.step N persist w).failed + (s.step N persist w).queues.flatten.length
+          = s.failed + s.queues.flatten.length := by
+      unfold Run.step
+      cases hq : s.queues[w]? with
+      | none => exact ⟨rfl, rfl, rfl⟩
+      | some q =>
+        cases q with
+        | nil => exact ⟨rfl, rfl, rfl⟩
+        | cons r rest =>
+          have hperm := flatten_set_perm s.queues w r rest hq
+          have hmem : r ∈ s.queues.flatten := hperm.subset (List.mem_cons_self ..)
+          simp only [failing_device_write N s.sink r hp hf (hw r hmem)]
+          have := hperm.length_eq
+          simp only [List.length_cons] at this
+          refine ⟨trivial, trivial, ?_⟩
+          omega
+    obtain ⟨h1, h2, h3⟩ := hstep
+    have := ih (s.step N persist w) (by rw [h1]; exact hp) (by rw [h1]; exact hf) (by
+      intro r hr
+      rw [h1]
+      apply hw
+      have hq := step_queues N persist s w
+      rw [hq] at hr
+      unfold drainStep at hr
+      split at hr
+      · rename_i r0 rest hq0
+        exact (flatten_set_perm s.queues w r0 rest hq0).subset (List.mem_cons_of_mem _ hr)
+      · exact hr)
+    simp only [Run.exec, List.foldl_cons] at this ⊢
+    refine ⟨by rw [this.1, h1], by rw [this.2.1, h2], by rw [this.2.2, h3]⟩
+
+/-- OBSERVED (I/O failures are outside the property; recorded because the two runners differ): with a file
+policy on a device that refuses writes, `run` under `PersistResponseInMemory` is an error as soon as one
+response was searched (`run_batch_with_responses` propagates the failed write), while under
+`DiscardResponseFromMemory` it succeeds with nothing handed back and nothing written
+(`run_batch_without_responses` drops the error of every write): the responses exist nowhere. -/
+theorem discard_policy_swallows_write_failures (N : NumOps) (sink : FileSink) (queues : List (List Json))
+    (schedule : List Nat) (hp : sink.poisoned = false) (hf : sink.failing = true)
+    (hw : ∀ r ∈ queues.flatten, Writable N sink.format r) (hdone : Complete queues schedule)
+    (hne : queues.flatten ≠ []) :
+    appRun N false sink queues [] schedule = some (sink, []) ∧
+    appRun N true sink queues [] schedule = none := by
+  have run := fun persist => failing_device_run N persist (Run.init sink queues) schedule hp hf hw
+  have hdoneq := fun persist => done_flatten_nil _ (done_of_complete N persist sink queues schedule hdone)
+  constructor
+  · obtain ⟨h1, h2, _⟩ := run false
+    simp only [appRun, writeSeq, Bool.false_and, Bool.false_eq_true, if_false, h1, h2]
+    simp [Run.init]
+  · obtain ⟨_, _, h3⟩ := run true
+    rw [hdoneq true] at h3
+    have hpos : 0 < queues.flatten.length := List.length_pos_iff.2 hne
+    have : ((Run.init sink queues).exec N true schedule).failed > 0 := by
+      simp only [Run.init, List.length_nil] at h3 ⊢
+      omega
+    simp [appRun, writeSeq, this]
+
+/-- `close` on a healthy sink appends exactly the closing record (empty for CSV and newline-delimited JSON,
+the bracket for the JSON array form) and reports the file name; on a poisoned or failing sink it is an
+error and changes nothing.  Nothing else ever writes the closing record: there is no `Drop`. -/
+theorem close_spec (s : FileSink) :
+    (s.Healthy → s.close.file = s.file ++ [record ((finalContents s.format).getD [])] ∧
+      s.closeName = some s.name) ∧
+    (¬ s.Healthy → s.close = s ∧ s.closeName = none) := by
+  unfold FileSink.Healthy FileSink.close FileSink.closeName
+  cases hp : s.poisoned <;> cases hf : s.failing <;> simp
+
+/-- closing a Combined sink whose members are all healthy closes every member and reports the non-empty
+names in order -/
+theorem close_combined_healthy (ss : List FileSink) (h : ∀ s ∈ ss, s.Healthy) :
+    closeCombined ss = (ss.map FileSink.close, some ((ss.map (·.name)).filter (fun n => !n.isEmpty))) := by
+  induction ss with
+  | nil => rfl
+  | cons s ss ih =>
+    have hs := ((close_spec s).1 (h s (List.mem_cons_self ..))).2
+    simp only [closeCombined, hs, ih (fun x hx => h x (List.mem_cons_of_mem _ hx)), List.map_cons,
+      List.filter_cons]
+    cases s.name.isEmpty <;> simp
+
+/-- building a Combined policy stops at the first member that cannot be built; the members before it have
+been built — their files exist by then — and the members after it are untouched -/
+theorem build_all_stops_at_first_failure (before : List Member) (bad : Member) (after : List Member)
+    (hgood : ∀ m ∈ before, ∃ s, buildAt .append m.name m.format m.rate m.path = .ok s)
+    (hbad : ∀ s, buildAt .append bad.name bad.format bad.rate bad.path ≠ .ok s) :
+    buildAll (before ++ bad :: after)
+      = (before.map (fun m => pathAfterOpen .append m.format m.path)
+          ++ pathAfterOpen .append bad.format bad.path :: after.map (·.path), none) := by
+  induction before with
+  | nil =>
+    cases hb : buildAt .append bad.name bad.format bad.rate bad.path with
+    | ok s => exact absurd hb (hbad s)
+    | _ => simp [buildAll, hb]
+  | cons m ms ih =>
+    obtain ⟨s, hs⟩ := hgood m (List.mem_cons_self ..)
+    simp only [List.cons_append, buildAll, hs, ih (fun x hx => hgood x (List.mem_cons_of_mem _ hx)),
+      List.map_cons]
+
+example :
+    let ok : Member := { name := "a.csv", format := .csv [("x", .path "x")] false, rate := none, path := .missing }
+    let bad : Member := { name := "nodir/b.json", format := .json true, rate := none, path := .noParent }
+    let rate0 : Member := { name := "c.json", format := .json false, rate := some 0, path := .missing }
+    (buildAll [ok, bad, ok]).2.isNone = true ∧
+    (match (buildAll [ok, bad, ok]).1 with | [.file h, .noParent, .missing] => h == txt "x\n" | _ => false) = true ∧
+    (match (buildAll [rate0]).1 with | [.file h] => h == txt "[\n" | _ => false) = true ∧
+    (buildAll [ok, ok]).2.isSome = true := by
+  decide
 
 end C19
 end Compass
